@@ -310,7 +310,7 @@ def _run_unit_once(name, template, vacuity, rlimit, extra_flags, use_cache, thre
         clause = ''
         for ln in spans:
             if 1 <= ln <= len(lines):
-                t = re.findall(r'@(C\d{2,3}|VACUITY)\b', lines[ln - 1])
+                t = re.findall(r'@(C\d{2,3}\??|VACUITY)(?![\w])', lines[ln - 1])
                 if t and not tags:
                     tags = t
                     clause = lines[ln - 1].strip()
